@@ -147,6 +147,33 @@ class P:
                 self.skip_group()
                 if self.at_op(';'):
                     self.next()
+            elif self.at_id('for'):
+                # `for [&]x in xs[.iter()] { acc = e; }` over an accumulator bound by an earlier `let mut acc`:
+                # the same left fold as `xs.iter().fold(acc, |acc, x| e)`
+                self.next()
+                if self.at_op('&'):
+                    self.next()
+                var = self.expect_id()
+                if not self.at_id('in'):
+                    raise TranslateError("for loop: `in` expected")
+                self.next()
+                xs = self.expect_id()
+                if self.at_op('.'):
+                    self.next()
+                    if self.expect_id() != 'iter':
+                        raise TranslateError("for loop: only `xs` or `xs.iter()` can be iterated")
+                    self.expect_op('(')
+                    self.expect_op(')')
+                self.expect_op('{')
+                acc = self.expect_id()
+                self.expect_op('=')
+                body = self.parse_expr()
+                self.expect_op(';')
+                self.expect_op('}')
+                if acc not in [n for n, _ in lets]:
+                    raise TranslateError("for loop: accumulator %s is not a local of the block" % acc)
+                lets.append((acc, ('mcall', ('mcall', ('path', [xs]), 'iter', []), 'fold',
+                                   [('path', [acc]), ('closure', [acc, var], body)])))
             elif self.at_id('unsafe') and self.at_op('{', 1):
                 self.next()
                 final = self.parse_block()
@@ -766,6 +793,8 @@ class Emitter:
             env2 = dict(env)
             env2[clo[1][0]] = 'isize'
             env2[clo[1][1]] = 'isize'
+            env2.pop('$val:' + clo[1][0], None)     # the closure's parameters shadow inlined locals of the same name
+            env2.pop('$val:' + clo[1][1], None)
             body, _ = self.emit(clo[2], env2, 'isize')
             return ("(fold_left (fun %s %s => %s) %s %s)" % (clo[1][0], clo[1][1], body, lst, init), 'isize')
         if name == 'trailing_zeros' and recv[0] == 'call' and recv[1] == ('path', ['align_of']):
